@@ -534,6 +534,16 @@ class Filer(hioing.Mixin):
             else:
                 shutil.rmtree(self.path)  # remove trailing dir of path (and all below)
 
+        if self.temp and self.path:  # remove temp head dir made by remake if any
+            tempDirPath = os.path.abspath(self.TempHeadDir)
+            head = self.path
+            while os.path.dirname(head) not in (head, tempDirPath):
+                head = os.path.dirname(head)
+            tail = os.path.basename(head)
+            if (os.path.dirname(head) == tempDirPath and os.path.isdir(head) and
+                    tail.startswith(self.TempPrefix) and tail.endswith(self.TempSuffix)):
+                shutil.rmtree(head)
+
 
 
 @contextmanager
